@@ -590,7 +590,7 @@ def instr(s, ins, decls):
         if op == 'zext': e = '((%s)%s)' % (ct, v)
         elif op == 'sext': e = s.mask(dt, '((%s)%s)' % (ct, s.sx(st, v)))
         elif op == 'trunc': e = s.mask(dt, '((%s)%s)' % (ct, v)) if dt.bits != 1 else '((_Bool)(%s & 1))' % v
-        elif op in ('sitofp', 'uitofp') and OPTS['narrow'] and st.bits >= 64 and constval(v) is None:
+        elif op in ('sitofp', 'uitofp') and OPTS['narrow'] and st.bits >= 128 and constval(v) is None:   # 64-bit key differences are legitimately wide
             B = OPTS['narrow']; nb = {16: 'int', 32: 'long', 8: 'short'}[B]
             g.stats['narrowed_' + op] += 1
             s.emit('RT_ASSERT(RT_SFITS%d(%s, %d)%s, "NARROW: operand of a %d-bit %s fits %d signed bits");' % (g.rnd(st.bits), v, B, '' if op == 'sitofp' else ' && !RT_SNEG%d(%s)' % (g.rnd(st.bits), v), st.bits, op, B))
